@@ -45,10 +45,15 @@ impl Case {
 
 type St = State<DU, DE>;
 
+thread_local! {
+    /// successful cases whose stored bindings are NOT in solved form (measured, written into the evidence)
+    pub static TRI: std::cell::Cell<u64> = std::cell::Cell::new(0);
+}
+
 pub enum ImplResult {
     HistoryFails,
     Fail,
-    Ok { tuple: Vec<T>, bound: Vec<usize> },
+    Ok { tuple: Vec<T>, bound: Vec<usize>, raw: Vec<Option<T>> },
 }
 
 /// how often each variable occurs in the case
@@ -92,7 +97,10 @@ pub fn run_impl(c: &Case) -> ImplResult {
                 tuple.push(rd.read(&smap.walk_star(x)));
             }
             let bound = (0..c.nvars).filter(|i| smap.contains_key(&vars.v[*i])).collect();
-            ImplResult::Ok { tuple, bound }
+            // the STORED right-hand side of each case variable's binding (`HashMap::get`, bound variables inside it
+            // unreplaced): compared with the triangular model (`unifyT` lines, Model/Triangular.lean)
+            let raw = (0..c.nvars).map(|i| smap.get(&vars.v[i]).map(|t| rd.read(t))).collect();
+            ImplResult::Ok { tuple, bound, raw }
         }
     }
 }
@@ -174,10 +182,16 @@ fn ground_apply(val: &[T], t: &T) -> T {
 
 /// returns (impl observable, oracle failure, non-trivial)
 pub fn eval(c: &Case) -> (String, Option<String>, bool) {
+    let (imp, _, fail, nt) = eval_raw(c);
+    (imp, fail, nt)
+}
+
+/// as `eval`, with the raw-bindings suffix of the `unifyT` observable (empty unless unification succeeded)
+pub fn eval_raw(c: &Case) -> (String, String, Option<String>, bool) {
     crate::mark(&c.line());
     let r = match crate::catch(|| run_impl(c)) {
         Ok(r) => r,
-        Err(site) => return (format!("PANIC {}", site), Some(format!("unification panicked at {}", site)), true),
+        Err(site) => return (format!("PANIC {}", site), String::new(), Some(format!("unification panicked at {}", site)), true),
     };
     // reference
     let mut s = Sub::new();
@@ -207,7 +221,7 @@ pub fn eval(c: &Case) -> (String, Option<String>, bool) {
     match r {
         ImplResult::HistoryFails => {
             let fail = if hist_ok { Some("a history unification failed but the reference unifier succeeds".to_string()) } else { None };
-            ("history-fails".into(), fail, false)
+            ("history-fails".into(), String::new(), fail, false)
         }
         ImplResult::Fail => {
             let mut fail = None;
@@ -218,9 +232,19 @@ pub fn eval(c: &Case) -> (String, Option<String>, bool) {
             }
             // non-trivial failure: not a clash at the root
             let nt = c.u.depth() > 0 && c.v.depth() > 0;
-            ("fail".into(), fail, nt)
+            ("fail".into(), String::new(), fail, nt)
         }
-        ImplResult::Ok { tuple, bound } => {
+        ImplResult::Ok { tuple, bound, raw } => {
+            // genuinely triangular: some stored right-hand side mentions a variable that is itself bound
+            let mut inside = vec![];
+            raw.iter().flatten().for_each(|t| t.vars(&mut inside));
+            if inside.iter().any(|x| bound.contains(x)) {
+                crate::c01::TRI.with(|c| c.set(c.get() + 1));
+            }
+            let raws = format!(
+                " ;raw {}",
+                raw.iter().map(|o| o.as_ref().map(|t| t.text()).unwrap_or_else(|| "-".to_string())).collect::<Vec<_>>().join(" , ")
+            );
             let can = canon(&tuple);
             let mut fail = None;
             if tuple[0] != tuple[1] {
@@ -253,7 +277,7 @@ pub fn eval(c: &Case) -> (String, Option<String>, bool) {
                 }
             }
             let nt = !bound.is_empty();
-            (format!("ok {}", show_tuple(&can)), fail, nt)
+            (format!("ok {}", show_tuple(&can)), raws, fail, nt)
         }
     }
 }
@@ -352,7 +376,7 @@ fn corpus() -> Vec<&'static str> {
 }
 
 fn record(c: &Case, out: &mut Out) {
-    let (imp, fail, nt) = eval(c);
+    let (imp, raws, fail, nt) = eval_raw(c);
     if imp.starts_with("ok") {
         out.stat("success");
         if nt {
@@ -364,7 +388,12 @@ fn record(c: &Case, out: &mut Out) {
         out.stat("other");
     }
     out.stat(&format!("history_len_{}", c.history.len()));
+    // the same case through the TRIANGULAR model: same observable, plus the stored bindings
+    let tline = c.line().replacen("unify ", "unifyT ", 1);
+    let timp = format!("{}{}", imp, raws);
     out.push(c.line(), imp, fail, nt);
+    out.stat("triangular_lines");
+    out.push(tline, timp, None, false);
 }
 
 pub fn replay(line: &str, out: &mut Out) {
@@ -389,6 +418,11 @@ fn small_terms(d: usize) -> Vec<T> {
 }
 
 pub fn run(seed: u64, thorough: bool, out: &mut Out) {
+    run_inner(seed, thorough, out);
+    out.stat_n("stored_bindings_not_in_solved_form", TRI.with(|c| c.get()));
+}
+
+fn run_inner(seed: u64, thorough: bool, out: &mut Out) {
     for l in corpus() {
         out.stat("corpus");
         replay(l, out);
